@@ -244,3 +244,81 @@ Example trajectory_setting_example :
   let c := [TU Z Z 2; TC Z Z [(3, 5); (4, -1)]; TU Z Z 7] in
   expect Z Z 0 Z.add Z.mul Z (fun v => v * v) (trajs Z 0 1 Z.add Z.mul Z.sub Z Z Z.mul c 1) = 14308.
 Proof. vm_compute. reflexivity. Qed.
+
+(* ---------------------------------------------------------------- the NoiseModel OBJECT: history vs fresh (ModelHist.v) *)
+From QV Require Import C19.ModelHist C19.ProofsHist.
+Local Open Scope nat_scope.
+
+(* one long-lived NoiseModel (dictionary of rule buckets; apply READS the defaultdict and thereby creates empty buckets)
+   driven through any interleaving of add / apply: every apply returns what a freshly built model holding the rules
+   added so far returns *)
+Theorem noise_history_equals_fresh : forall ops, run_hist [] ops = fresh_hist [] ops.
+Proof. exact run_hist_fresh. Qed.
+Print Assumptions noise_history_equals_fresh.
+
+(* apply is a function of the accumulated rule list and the circuit only *)
+Theorem noise_apply_after_history : forall ops coll0 c,
+  last (run_hist [] (ops ++ [HApply coll0 c])) None = apply2 (added ops) coll0 c.
+Proof. exact apply_after_history. Qed.
+Print Assumptions noise_apply_after_history.
+
+(* the dictionary read of apply is the rule lookup of the flat model whenever the buckets hold the added rules *)
+Theorem noise_lookup_of_dictionary : forall d rules g, wf d rules -> nm_lookup d g = lookup rules g.
+Proof. exact nm_lookup_wf. Qed.
+Print Assumptions noise_lookup_of_dictionary.
+
+(* non-vacuity: a history with an add AFTER an apply; and the defect class "per-class rule cache invalidated for the
+   rule's own key only" (run_hist_cached) is NOT history-independent *)
+Example noise_history_example :
+  map show (run_hist [] hist_witness) =
+  [Some [(0, [0], 0); (1, [0], 0)]; Some [(0, [0], 0); (1, [0], 0); (2, [0], 1)]].
+Proof. vm_compute. reflexivity. Qed.
+
+Theorem noise_history_cached_refuted : exists ops, run_hist_cached [] [] ops <> fresh_hist [] ops.
+Proof. exists hist_witness. exact cached_hist_differs. Qed.
+Print Assumptions noise_history_cached_refuted.
+
+(* ---------------------------------------------------------------- sampled index -> applied operator; zero probabilities (TrajZero.v) *)
+From QV Require Import C19.TrajZero.
+Local Open Scope nat_scope.
+
+(* draw i of the trajectory step applies the i-th operator of the DECLARED list with the i-th declared probability;
+   draw len(ops) is the identity branch with probability 1 - sum; no other draw exists *)
+Theorem trajectory_branch_index : forall (S : setting) (ops : list (K S * U S)) (v : V S) (i : nat),
+  nth_error (branches (K S) (k0 S) (k1 S) (kadd S) (ksub S) (V S) (U S) (actV S) ops v) i =
+  match nth_error ops i with
+  | Some (p, u) => Some (p, actV S u v)
+  | None => if Nat.eqb i (length ops)
+            then Some (ksub S (k1 S) (ksum (K S) (k0 S) (kadd S) (map fst ops)), v) else None
+  end.
+Proof. intros S ops v i. apply branch_index_gen. Qed.
+Print Assumptions trajectory_branch_index.
+
+(* operators of probability exactly zero -- at any position of the list -- can be removed TOGETHER WITH their
+   probabilities without changing the density-matrix run, hence (trajectory_expectation) the trajectory average *)
+Theorem zero_probability_operators_irrelevant :
+  forall (S : setting) (isz : K S -> bool), (forall x, isz x = true -> x = k0 S) ->
+  forall (c : list (tstep (K S) (U S))) (v : V S),
+  expect (K S) (D S) (dzero S) (dadd S) (dscale S) (V S) (proj S)
+         (trajs (K S) (k0 S) (k1 S) (kadd S) (kmul S) (ksub S) (V S) (U S) (actV S)
+                (map (drop_zero_step (K S) (U S) isz) c) v)
+  = run_dm (K S) (k0 S) (k1 S) (kadd S) (ksub S) (D S) (dzero S) (dadd S) (dscale S) (U S) (actD S) c (proj S v).
+Proof.
+  intros S isz Hz c v. rewrite trajectory_expectation.
+  apply (run_dm_drop_zero_gen (K S) (k0 S) (k1 S) (kadd S) (kmul S) (ksub S) (kopp S) (Kring S)); try assumption;
+    destruct S; assumption.
+Qed.
+Print Assumptions zero_probability_operators_irrelevant.
+
+(* the defect class "probabilities filtered, operators indexed in the unfiltered list" does not have the
+   density-matrix expectation (integers, proj v = v^2, operators [(0, 5); (1, 3)]) *)
+Theorem shifted_index_sampling_refuted :
+  exists ops : list (Z * Z),
+  expect Z Z 0%Z Z.add Z.mul Z (fun v => (v * v)%Z) (branches_shift Z 0%Z 1%Z Z.add Z.sub Z Z Z.mul (Z.eqb 0) ops 1%Z)
+  <> chan_dm Z 0%Z 1%Z Z.add Z.sub Z 0%Z Z.add Z.mul Z (fun u d => (u * u * d)%Z) ops 1%Z.
+Proof. exists [(0, 5); (1, 3)]%Z. exact shift_refuted_Z. Qed.
+Print Assumptions shifted_index_sampling_refuted.
+
+(* non-vacuity of the zero test: exact comparison with 0 on the integer setting *)
+Example zero_test_example : forall x : K Zsetting, Z.eqb 0 x = true -> x = k0 Zsetting.
+Proof. intros x H. apply Z.eqb_eq in H. now subst. Qed.
